@@ -21,10 +21,15 @@ META = {
 def jobs():
     d = ["ENV_ALLOC_MAY_FAIL"] + CUT_CLIENT
     js = []
+    # PDU building: "fail exactly the k-th allocation" with k concrete per job (with an arbitrary subset failing, alloc_size/max_opt
+    # become symbolic and symex did not finish in 1800 s); k beyond the last allocation = no failure
     for v, what in ((0, "append"), (1, "insert")):
-        js.append(Job("scenario-build-%s" % what, "C18/c18.c", "c18_build", UNITS, extra_src=EXTRA, defines=d + ["BUILD_VARIANT=%d" % v],
-                      remove_bodies=RB_CLIENT, unwind=24, unwindset={"coap_insert_option": 3, "coap_add_option_internal": 3}, flags=FS, timeout=1800, est_gb=6,
-                      desc="PDU building with forced growth (%s path): any subset of allocations fails" % what, bounds={"scenario": "build-" + what}))
+        for k in range(0, 6):
+            js.append(Job("scenario-build-%s@fail%d" % (what, k), "C18/c18.c", "c18_build", UNITS, extra_src=EXTRA,
+                          defines=d + ["BUILD_VARIANT=%d" % v, "ENV_FAIL_AT=%d" % k, "ENV_REALLOC_BYTELOOP"],
+                          remove_bodies=RB_CLIENT, unwind=24, unwindset={"coap_insert_option": 3, "coap_add_option_internal": 3}, flags=FS, timeout=900, est_gb=4,
+                          group="scenario-build-" + what, witness=(k <= 2),
+                          desc="PDU building with forced growth (%s path): allocation #%d fails" % (what, k), bounds={"scenario": "build-" + what, "failing allocation": k}))
     for name, entry, desc in (("optlist", "c18_optlist", "URI to optlist helpers"),
                               ("send", "c18_send", "coap_send_internal of a CON"), ("strings", "c18_strings", "strings / error response derived from a request")):
         js.append(Job("scenario-%s" % name, "C18/c18.c", entry, UNITS, extra_src=EXTRA, defines=d, remove_bodies=RB_CLIENT, unwind=24, flags=FS,
